@@ -232,7 +232,9 @@ func walkPaths(fn *ssa.Function, want func(ssa.Instruction) bool, visit func(p *
 		switch t := b.Instrs[len(b.Instrs)-1].(type) {
 		case *ssa.If:
 			tb, fb := true, true
-			x, nilIfTrue, isNT := nilTest(t.Cond)
+			// a boolean phi of `a && b` resolves, along this path, to the operand that decided it
+			cond := p.resolve(t.Cond)
+			x, nilIfTrue, isNT := nilTest(cond)
 			var rx ssa.Value
 			if isNT {
 				rx = p.resolve(x)
@@ -242,9 +244,9 @@ func walkPaths(fn *ssa.Function, want func(ssa.Instruction) bool, visit func(p *
 				case nsNonNil:
 					tb, fb = !nilIfTrue, nilIfTrue
 				}
-			} else if kv, ok := p.bools[t.Cond]; ok {
+			} else if kv, ok := p.bools[cond]; ok {
 				tb, fb = kv, !kv
-			} else if cb, ok := ssax.ConstBool(p.resolve(t.Cond)); ok {
+			} else if cb, ok := ssax.ConstBool(cond); ok {
 				tb, fb = cb, !cb
 			}
 			for i, take := range []bool{tb, fb} {
@@ -260,7 +262,7 @@ func walkPaths(fn *ssa.Function, want func(ssa.Instruction) bool, visit func(p *
 						q.facts[rx] = nsNonNil
 					}
 				} else {
-					q.bools[t.Cond] = i == 0
+					q.bools[cond] = i == 0
 				}
 				n++
 				if n > maxPaths {
